@@ -36,6 +36,8 @@ struct Case {
     want_binary: bool,
     want_assign: bool,
     generic: bool,
+    /// `#[derive_ex(OpAssign, Op)]` instead of `#[derive_ex(Op, OpAssign)]`
+    assign_first: bool,
 }
 
 fn gen(ch: &mut Ch, thorough: bool) -> Option<Case> {
@@ -45,6 +47,10 @@ fn gen(ch: &mut Ch, thorough: bool) -> Option<Case> {
     let rhs = *ch.of(&[RhsTy::SameExplicit, RhsTy::Other, RhsTy::SameOmitted, RhsTy::SameAsSelfKw]);
     let req = ch.pick(3); // 0 {Op}, 1 {OpAssign}, 2 {Op, OpAssign}
     let generic = ch.flag();
+    let assign_first = ch.flag();
+    if assign_first && req != 2 {
+        return None;
+    }
     let (want_binary, want_assign) = match req {
         0 => (true, false),
         1 => (false, true),
@@ -78,7 +84,7 @@ fn gen(ch: &mut Ch, thorough: bool) -> Option<Case> {
             return None;
         }
     }
-    Some(Case { vector: ch.vector(), op, base, rhs, want_binary, want_assign, generic })
+    Some(Case { vector: ch.vector(), op, base, rhs, want_binary, want_assign, generic, assign_first })
 }
 
 fn build(c: &Case, tier: &str) -> XCase {
@@ -108,6 +114,9 @@ fn build(c: &Case, tier: &str) -> XCase {
     }
     if c.want_assign {
         list.push(tra.clone());
+    }
+    if c.assign_first {
+        list.reverse();
     }
     s.push_str(&format!("#[derive_ex({})]\n", list.join(", ")));
     match c.base {
